@@ -32,6 +32,10 @@ type Facts struct {
 	// writes to receiver / package-level variables inside process/validate/Parse/Validate
 	Writes        []string
 	ClosureWrites []string
+	// ExecCtxFormatters: the distinct second arguments of the NewExecCtx calls (the formatter a top-level
+	// entry point starts from); ExecCtxSites: how many calls there are
+	ExecCtxFormatters []string
+	ExecCtxSites      int
 	// argument handed to struct-level tests / posttransforms in struct.validate
 	StructValidateTestArg                                   string
 	StructValidatePostArg                                   string
@@ -709,7 +713,7 @@ func extractFacts(repo string) (*Facts, error) {
 	fc.Writes = receiverWrites(fset, schemaFiles)
 	// every non-test source file of the library packages whose closures run during a call
 	closureFiles := map[string]*ast.File{}
-	for _, dir := range []string{"", "internals", "conf"} {
+	for _, dir := range []string{"", "internals", "conf", "i18n", "zhttp", "zenv", "parsers/zjson"} {
 		names, _ := filepath.Glob(filepath.Join(repo, dir, "*.go"))
 		for _, full := range names {
 			base := filepath.Base(full)
@@ -724,6 +728,31 @@ func extractFacts(repo string) (*Facts, error) {
 		}
 	}
 	fc.ClosureWrites = closureWrites(fset, closureFiles)
+	// F-fmt: the formatter every top-level entry point hands its execution context (NewExecCtx(errs, X))
+	{
+		seen := map[string]int{}
+		for _, f := range closureFiles {
+			ast.Inspect(f, func(n ast.Node) bool {
+				call, ok := n.(*ast.CallExpr)
+				if !ok || len(call.Args) != 2 {
+					return true
+				}
+				fn := exprString(call.Fun)
+				if fn == "NewExecCtx" || strings.HasSuffix(fn, ".NewExecCtx") {
+					seen[exprString(call.Args[1])]++
+				}
+				return true
+			})
+		}
+		for k := range seen {
+			fc.ExecCtxFormatters = append(fc.ExecCtxFormatters, k)
+		}
+		sort.Strings(fc.ExecCtxFormatters)
+		fc.ExecCtxSites = 0
+		for _, v := range seen {
+			fc.ExecCtxSites += v
+		}
+	}
 
 	sv := findFunc(files["struct.go"], "StructSchema", "validate")
 	isTestCall := func(call *ast.CallExpr) bool {
@@ -1107,6 +1136,7 @@ func (f *Facts) lean() string {
 		s.WriteString("\n")
 	}
 	s.WriteString("]\n\n")
+	fmt.Fprintf(&s, "/-- the formatter every top-level entry point hands its execution context: the distinct second arguments of the %d NewExecCtx(errs, X) calls -/\ndef execCtxFormatters : List String := %s\n\n", f.ExecCtxSites, leanStrList(f.ExecCtxFormatters))
 	fmt.Fprintf(&s, "/-- writes inside function literals (test / transform / option / coercer closures) to captured or package-level variables -/\ndef closureWrites : List String := %s\n\n", leanStrList(f.ClosureWrites))
 	fmt.Fprintf(&s, "/-- writes rooted at a schema receiver or package variable — assignments, inc/dec and in-place mutator calls (Store, Swap, LoadOrStore, Do, ...) on receiver fields — inside process/validate/Parse/Validate and every function of the schema files reachable from them -/\ndef schemaWrites : List String := %s\n\n", leanStrList(f.Writes))
 	srcOf := func(p string) string {
@@ -1168,7 +1198,7 @@ var probeDoc = map[string][2]string{
 	"UnwrapNilGuard":           {"C06", "Struct{a: Preprocess(pass-through, String())}.Parse(map{a: (*string)(nil)}) and a pointer to that nil pointer: must not panic"},
 	"EmbeddedNilGuard":         {"C06", "Struct{a: String()}.Parse(struct{ *Embedded; B int }{}) (field A promoted through a nil embedded pointer): must not panic"},
 	"NilBodyGuard":             {"C06 C15", "Struct{a: String()}.Parse(zjson.Decode(nil)): must not panic"},
-	"SliceDefaultDeep":         {"C19 C17", "Slice(Slice(String())).Default([[a b]]).PostTransform(value[0][0] = MUTATED) validated twice on empty values: the second use must still see the default [[a b]]; likewise defaults of type []*int, []Stop{Geo{Tags []string}} (a struct holding a struct that holds a slice), []PStop{Geo *Geo}, []Cell{P *int}, [][]*int, an empty inner slice with spare capacity that the PostTransform appends to, and structs with map fields whose values are slices / pointers — after two uses with an in-place write through the validated value the default as the caller wrote it must be unchanged"},
+	"SliceDefaultDeep":         {"C19 C17 C04 C03", "(also: a schema WITHOUT PostTransforms validated on an empty value must hold a value deeply equal to its Default, for defaults with pointers, structs, maps and interface fields) Slice(Slice(String())).Default([[a b]]).PostTransform(value[0][0] = MUTATED) validated twice on empty values: the second use must still see the default [[a b]]; likewise defaults of type []*int, []Stop{Geo{Tags []string}} (a struct holding a struct that holds a slice), []PStop{Geo *Geo}, []Cell{P *int}, [][]*int, an empty inner slice with spare capacity that the PostTransform appends to, and structs with map fields whose values are slices / pointers — after two uses with an in-place write through the validated value the default as the caller wrote it must be unchanged"},
 	"CloneCopies":              {"C16", "base with three tests; A := base.Pick(a).Test(tA); B := base.Omit(a).Test(tB); C := base.Extend({}).Test(tC): running A must run tA and neither tB nor tC (same with PostTransforms)"},
 }
 
